@@ -378,3 +378,13 @@ package parser
 //@   ensures [new] result != nil
 //@ extern antlr.NewNumscriptParser(input)
 //@   ensures [new] result != nil && result.BaseParser != nil && result.BaseParser.BaseRecognizer != nil
+
+// the number a ratio literal denotes: numerator over denominator, exactly, at any size
+//@ func (RatioLiteral).ToRatio
+//@   requires [numbers] r.Numerator != nil && r.Denominator != nil && val(r.Denominator) != 0
+//@   ensures [exact] {C06,C13} result != nil && fresh(ref(result)) && rat(result) == fraction(val(r.Numerator), val(r.Denominator))
+//@   modifies nothing
+
+//@ func (RatioLiteral).HasZeroDenominator
+//@   ensures [zero-denominator] {C06,C12} result == (r.Denominator == nil || val(r.Denominator) == 0)
+//@   modifies nothing
